@@ -80,7 +80,28 @@ func outcomeOf(v otto.Value, err error, logged []string) string {
 	return "val:" + v.String() + "|" + strings.Join(logged, ",")
 }
 
-const template = `var T = {count: 0, items: [1, 2, 3]}; function bump(){ return ++T.count } var adder = (function(){ var n = 100; return function(){ return ++n } })(); bump();`
+// The template holds one object of every kind objectClone has an arm for (plain, array, arguments,
+// bound function with bound primitive AND object arguments and spare capacity in the bound list,
+// Date, RegExp with state, Error, String/Number/Boolean wrappers, accessor properties, closures), so
+// that state left shared between copies shows as a race or as a result that differs from the baseline.
+const template = `var T = {count: 0, items: [1, 2, 3], nested: {deep: [1, {x: 1}]}};
+function bump(){ return ++T.count }
+var adder = (function(){ var n = 100; return function(){ return ++n } })();
+var box = {n: 0};
+function addTo(b, k, extra, more){ b.n += k; return b.n + "/" + extra + "/" + more }
+var boundBox = addTo.bind(null, box, 2);            // two bound arguments (spare capacity), one an object
+var boundOne = addTo.bind(null, box);               // one bound argument
+var tArgs = (function(a, b){ return arguments })(1, 2);
+var tDate = new Date(0), tRe = /a/g, tErr = new Error("t"), tStr = new String("s"), tNum = new Number(1);
+var tAcc = {}; Object.defineProperty(tAcc, "v", {get: function(){ return ++box.n }, set: function(x){ box.n = x }, configurable: true, enumerable: true});
+bump();`
+
+// what every copy does with the template's objects after its own program
+const templateUse = `; [String(bump()) + adder(), boundBox("e", "m"), boundBox(T.count, null), boundOne(1, 2, 3), box.n,
+ (tArgs[0] = T.count, tArgs[0] + tArgs.length), (delete T.items[0], T.items.push(T.count), T.items.join()),
+ (T.nested.deep[1].x += 1), (tDate.setTime(T.count), tDate.getTime()), (tRe.test("aa"), tRe.lastIndex),
+ (tErr.message += "!", tErr.message), (tStr.p = 1, Object.keys(tStr).join()), tAcc.v, (tAcc.v = 5, box.n),
+ Object.keys(T).join()].join(";")`
 
 // run program i according to mode on a runtime prepared by prep; returns the outcome
 func runOne(mode string, src string, shared interface{}, tmpl *otto.Otto, reps int) string {
@@ -100,7 +121,7 @@ func runOne(mode string, src string, shared interface{}, tmpl *otto.Otto, reps i
 		case "script", "program":
 			v, err = vm.Run(shared)
 		case "copies", "copyconc":
-			v, err = vm.Run(src + "\n; String(bump()) + adder()")
+			v, err = vm.Run(src + "\n" + templateUse)
 		default:
 			v, err = vm.Run(src)
 		}
